@@ -424,3 +424,80 @@ Proof.
   unfold validate_one. intros H. apply andb_prop in H. destruct H as [A B].
   apply Z.leb_le in A, B. split; [exact A | left; exact B].
 Qed.
+
+(* ---------- provenance at the level of parallel groups ---------- *)
+Section PMadeSec.
+  Variable o : opts.
+  Variable ts : luts.
+  Variable allow : bool.
+  Variable T : list pg.                    (* the original parallel groups *)
+
+  Inductive PMade : pg -> list pg -> Prop :=
+  | PM_opt p : In p T -> PMade (pg_optimize o ts allow p) [p]
+  | PM_merge P Q sp sq x y : PMade P sp -> PMade Q sq ->
+      p_merge P = true -> p_merge Q = true -> pg_single P = Some x -> pg_single Q = Some y ->
+      optimizable o ts allow x y = true ->
+      PMade (mkPg [merge x y] (p_merge P)) (sp ++ sq).
+
+  Lemma pg_optimize_flag p : p_merge (pg_optimize o ts allow p) = p_merge p.
+  Proof. unfold pg_optimize. destruct (optimize_slice o ts allow (p_groups p)). reflexivity. Qed.
+
+  Lemma tg_merge_from_pmade rest : forall cur sc, PMade cur sc ->
+    (forall q, In q rest -> exists sq, PMade q sq) ->
+    forall p, In p (fst (tg_merge_from o ts allow cur rest)) -> p = DEFAULT_PG \/ exists sp, PMade p sp.
+  Proof.
+    induction rest as [|q r IH]; intros cur sc Hc Hr p Hp; cbn [tg_merge_from] in *.
+    - cbn in Hp. destruct Hp as [<-|[]]. right. eauto.
+    - destruct (Hr q (or_introl eq_refl)) as [sq Hq].
+      assert (Hr' : forall q0, In q0 r -> exists s0, PMade q0 s0) by (intros; apply Hr; right; assumption).
+      destruct (if p_merge cur && p_merge q
+                then match pg_single cur, pg_single q with
+                     | Some x, Some y => if optimizable o ts allow x y then Some (x, y) else None
+                     | _, _ => None end
+                else None) as [[x y]|] eqn:E.
+      + assert (Hx : p_merge cur = true /\ p_merge q = true /\ pg_single cur = Some x /\ pg_single q = Some y
+                     /\ optimizable o ts allow x y = true).
+        { destruct (p_merge cur) eqn:A; [|discriminate]. destruct (p_merge q) eqn:B; [|discriminate]. cbn in E.
+          destruct (pg_single cur) as [x'|] eqn:E1; [|discriminate].
+          destruct (pg_single q) as [y'|] eqn:E2; [|discriminate].
+          destruct (optimizable o ts allow x' y') eqn:Eo; [|discriminate]. inversion E; subst. auto. }
+        destruct Hx as [A [B [E1 [E2 Eo]]]].
+        pose proof (PM_merge cur q sc sq x y Hc Hq A B E1 E2 Eo) as Hm.
+        specialize (IH _ _ Hm Hr').
+        destruct (tg_merge_from o ts allow (mkPg [merge x y] (p_merge cur)) r) as [l m]. cbn [fst] in *.
+        destruct Hp as [<-|Hp]; [left; reflexivity | exact (IH p Hp)].
+      + specialize (IH q sq Hq Hr'). destruct (tg_merge_from o ts allow q r) as [l m]. cbn [fst] in *.
+        destruct Hp as [<-|Hp]; [right; eauto | exact (IH p Hp)].
+  Qed.
+
+  Lemma pmade_flags P srcs : PMade P srcs ->
+    (exists s r, srcs = s :: r /\ p_merge P = p_merge s) /\
+    ((2 <= length srcs)%nat -> forall s, In s srcs -> p_merge s = true).
+  Proof.
+    induction 1 as [p Hp | P Q sp sq x y HP [IHP1 IHP2] HQ [IHQ1 IHQ2] A B E1 E2 Eo].
+    - split; [exists p, []; split; [reflexivity | apply pg_optimize_flag]|]. cbn. lia.
+    - destruct IHP1 as [s [r [-> Es]]]. destruct IHQ1 as [s' [r' [-> Es']]]. split.
+      + exists s, (r ++ s' :: r'). split; [reflexivity | exact Es].
+      + intros _ z Hz.
+        assert (HallP : forall z, In z (s :: r) -> p_merge z = true).
+        { destruct r as [|r0 r1]; [intros z0 [<-|[]]; congruence | apply IHP2; cbn; lia]. }
+        assert (HallQ : forall z, In z (s' :: r') -> p_merge z = true).
+        { destruct r' as [|r0 r1]; [intros z0 [<-|[]]; congruence | apply IHQ2; cbn; lia]. }
+        apply in_app_or in Hz. destruct Hz; auto.
+  Qed.
+End PMadeSec.
+
+(* every final parallel group is the optimized form of an original one, or the merge of single,
+   mergeable ones (an empty default group carries no instruction) *)
+Theorem tg_optimize_pmade o ts allow tg p :
+  In p (tg_optimize o ts allow tg) -> p = DEFAULT_PG \/ exists srcs, PMade o ts allow tg p srcs.
+Proof.
+  intros Hp. unfold tg_optimize in Hp.
+  assert (H1 : forall q, In q (map (pg_optimize o ts allow) tg) -> exists sq, PMade o ts allow tg q sq).
+  { intros q Hq. apply in_map_iff in Hq. destruct Hq as [q0 [<- Hq0]]. exists [q0]. apply PM_opt. exact Hq0. }
+  destruct (map (pg_optimize o ts allow) tg) as [|p0 r] eqn:Em; [cbn in Hp; destruct Hp|].
+  destruct (H1 p0 (or_introl eq_refl)) as [s0 Hs0].
+  pose proof (tg_merge_from_pmade o ts allow tg r p0 s0 Hs0 (fun q Hq => H1 q (or_intror Hq))) as H.
+  destruct (tg_merge_from o ts allow p0 r) as [l merged] eqn:El. cbn [fst] in H.
+  destruct merged; [apply filter_In in Hp; destruct Hp as [Hp _]|]; exact (H p Hp).
+Qed.
